@@ -5,7 +5,7 @@ it takes hours for the whole catalogue; names select a subset."""
 import json, os, subprocess, sys, time
 from . import common as c
 
-REVERTS = {'D2': 'C12', 'D3': 'C05', 'D4': 'C20', 'D5': 'C02', 'D6': 'C12', 'D7': 'C12'}
+REVERTS = {'D2': 'C12', 'D3': 'C05', 'D4': 'C20', 'D5': 'C02', 'D6': 'C12', 'D7': 'C12', 'D8': 'C15'}
 
 
 def catalogue():
